@@ -577,6 +577,25 @@ func (r *run) c15Body(g *gen.G, v knxnet.ServicePackable) {
 		if got := uint(fw[4])<<8 | uint(fw[5]); got != size+6 || uint(len(fw)) != size+6 {
 			r.violation("header-length", op2, fmt.Sprintf("header says %d, body size %d, datagram %d", got, size, len(fw)))
 		}
+		// the same frame packed at the front of a longer buffer (a reused scratch buffer, a stream
+		// buffer): same bytes, same header, nothing behind the frame touched
+		long := make([]byte, int(fsize)+24)
+		for i := range long {
+			long[i] = 0xA5
+		}
+		if d := guarded(func() decOut { knxnet.Pack(long, v); return decOut{class: "ok"} }); d.class != "ok" {
+			r.violation("frame-pack-longer-buffer-"+d.class, op2, d.msg)
+		} else {
+			if !bytes.Equal(long[:fsize], fw) {
+				r.violation("frame-depends-on-buffer-length", op2, fmt.Sprintf("packed into a buffer of %d bytes the frame is %s, into one of exactly %d bytes it is %s", len(long), ktext.Hex(long[:fsize]), fsize, ktext.Hex(fw)))
+			}
+			for _, b := range long[fsize:] {
+				if b != 0xA5 {
+					r.violation("frame-pack-overrun", op2, "bytes behind the frame were modified in a longer buffer")
+					break
+				}
+			}
+		}
 	}
 }
 
@@ -1363,6 +1382,31 @@ func (r *run) c12(g *gen.G, budget int) {
 					want, wl = true, &ind.LData
 				}
 			}
+		}
+		// the same message as it arrives from the network: encoded into a routing indication by
+		// the sender's side, decoded by the receiving client, then filtered - the kind of message
+		// is known here by construction, not from the decoder
+		if canonicalCemi(m) {
+			wire := guarded(func() decOut {
+				frame := knxnet.AllocAndPack(&knxnet.RoutingInd{Payload: m})
+				var s knxnet.Service
+				if _, err := knxnet.Unpack(frame, &s); err != nil {
+					return decOut{class: "err"}
+				}
+				ri, isRI := s.(*knxnet.RoutingInd)
+				if !isRI {
+					return decOut{class: "err"}
+				}
+				_, surfaced := filterOne(ri.Payload)
+				if surfaced {
+					return decOut{class: "ok", msg: "surfaced"}
+				}
+				return decOut{class: "ok", msg: "none"}
+			})
+			if wire.class == "ok" && (wire.msg == "surfaced") != want {
+				r.violation("inbound-filter-from-wire", op, fmt.Sprintf("sent in a routing indication and decoded by the receiving client: surfaced=%v, the rule says %v", wire.msg == "surfaced", want))
+			}
+			r.classes["gin-from-wire->"+wire.class]++
 		}
 		switch {
 		case want != ok:
